@@ -3,6 +3,7 @@ package c05
 
 import (
 	"fmt"
+	"math/big"
 	"os"
 	"sort"
 	"strings"
@@ -12,6 +13,7 @@ import (
 
 	"github.com/kardiachain/go-kardia/consensus"
 	"github.com/kardiachain/go-kardia/kai/kaidb/memorydb"
+	"github.com/kardiachain/go-kardia/lib/common"
 	"github.com/kardiachain/go-kardia/mainchain/blockchain"
 	"github.com/kardiachain/go-kardia/types"
 
@@ -32,10 +34,11 @@ type scenario struct {
 	Cache    string // "archive" (flush every block) or "dirty" (keep recent state in memory)
 	Heights  uint64 // base run length
 	NilRound bool   // the proposal of height 2 round 1 is withheld, so that height needs two rounds
+	WithTxs  bool   // two signed transfers sit in every node's pool from the start, so the first blocks carry transactions
 }
 
 func (sc scenario) String() string {
-	return fmt.Sprintf("powers=%v subject=%d cache=%s heights=%d nilround=%v", sc.Powers, sc.Subject, sc.Cache, sc.Heights, sc.NilRound)
+	return fmt.Sprintf("powers=%v subject=%d cache=%s heights=%d nilround=%v txs=%v", sc.Powers, sc.Subject, sc.Cache, sc.Heights, sc.NilRound, sc.WithTxs)
 }
 
 func cacheOf(mode string) *blockchain.CacheConfig {
@@ -83,6 +86,21 @@ func runCrash(sc scenario, cut int, tail string) (out outcome) {
 		return
 	}
 	defer s.Close()
+	if sc.WithTxs {
+		for n := uint64(0); n < 2; n++ {
+			tx, err := types.SignTx(types.HomesteadSigner{}, types.NewTransaction(n, common.BytesToAddress([]byte{0xc0, 0x05}), big.NewInt(1000), 40000, big.NewInt(1), nil), netsim.Key(100))
+			if err != nil {
+				out.findings = append(out.findings, finding{"harness", err.Error()})
+				return
+			}
+			for _, i := range s.Correct {
+				if err := s.Nodes[i].TxPool.AddLocal(tx); err != nil {
+					out.findings = append(out.findings, finding{"harness", "AddLocal: " + err.Error()})
+					return
+				}
+			}
+		}
+	}
 	s.WriteWAL = true
 	s.HaltOnDeath = true
 	s.Died = func(i int) bool { return i == sc.Subject && counter.Dead }
@@ -161,8 +179,8 @@ func runCrash(sc scenario, cut int, tail string) (out outcome) {
 	// memory mode a restart rolls the node back independently of the phase, so R3 there is keyed without a phase.
 	add := func(clause, format string, a ...interface{}) {
 		phase := out.phase
-		if sc.Cache == "dirty" && strings.HasPrefix(clause, "R3") {
-			phase = "any"
+		if (sc.Cache == "dirty" && strings.HasPrefix(clause, "R3")) || strings.HasPrefix(clause, "R3:other-proposal") || strings.HasPrefix(clause, "R4:stuck-after-own") {
+			phase = "any" // causes that do not depend on how far the commit had got
 		}
 		out.findings = append(out.findings, finding{fmt.Sprintf("clause=%s,cache=%s,phase=%s", clause, sc.Cache, phase), fmt.Sprintf(format, a...)})
 	}
@@ -243,10 +261,29 @@ func runCrash(sc scenario, cut int, tail string) (out outcome) {
 	var ok bool
 	var why string
 	msg, frame = ev.Try(func() { ok, _, why = s.SyncRun(s.Correct, goal, 6000) })
+	ownConflict := false
+	for _, sg := range sigs {
+		if sg.epoch != 0 {
+			if id, okp := published[sigKey{sg.Kind, sg.Height, sg.Round}]; okp && netsim.ExactKey(id) != netsim.ExactKey(sg.BlockID) {
+				ownConflict = true
+			}
+		}
+	}
 	if msg != "" {
 		add("R4", "after the restart the network panicked: %s (in %s)", first(msg, 300), frame)
+	} else if !ok && ownConflict {
+		// the peers hold the vote it published before the crash, so its new, different vote for the same height/round/
+		// type is refused everywhere (also by itself once its old vote has come back: "conflicting vote from ourselves")
+		add("R4:stuck-after-own-conflicting-signature", "after the restart the network did not reach height %d and the restarted validator had signed against its own published message: %s", goal, first(why, 300))
 	} else if !ok {
-		add("R4", "after the restart the network did not reach height %d: %s", goal, first(why, 300))
+		dbg := " | still on offer: " + s.DescribeOffers(s.Correct)
+		for _, i := range s.Correct {
+			cs := s.Nodes[i].CS
+			if cs.Height == s.MinHeight(s.Correct) {
+				dbg += fmt.Sprintf(" | n%d prevotes(%d)=%s precommits=%s", i, cs.Round, cs.Votes.Prevotes(cs.Round).StringShort(), cs.Votes.Precommits(cs.Round).StringShort())
+			}
+		}
+		add("R4", "after the restart the network did not reach height %d: %s%s", goal, first(why, 300), first(dbg, 1500))
 	}
 	// R3: no post-restart signature conflicts with a message published before the crash
 	signedAfter := 0
@@ -259,6 +296,9 @@ func runCrash(sc scenario, cut int, tail string) (out outcome) {
 			clause := "R3:resign-at-crash-height"
 			if sg.Height <= lastApplied {
 				clause = "R3:resign-at-rolled-back-height" // it had applied that block completely and came back below it
+			}
+			if sg.Kind == "proposal" {
+				clause = "R3:other-proposal-after-restart" // same height/round, another block (its pool content is gone)
 			}
 			add(clause, "after the restart it signed a %s at %d/%d for %s, before the crash it had published one for %s", sg.Kind, sg.Height, sg.Round, short(sg.BlockID), short(id))
 		}
@@ -295,6 +335,9 @@ func runCrash(sc scenario, cut int, tail string) (out outcome) {
 	}
 	if tail == "mid" && unsyncedRecs > 0 {
 		out.classes = append(out.classes, "wal-tail-cut-mid-record")
+	}
+	if sc.WithTxs {
+		out.classes = append(out.classes, "blocks-with-transactions")
 	}
 	if strings.Contains(out.window, "before:walsync[own-pre") {
 		out.classes = append(out.classes, "cut-between-signature-and-wal-sync")
@@ -380,7 +423,7 @@ func drawScenario(t *rapid.T) scenario {
 		powers[i] = int64(rapid.SampledFrom([]int{15, 15, 30}).Draw(t, "p"))
 	}
 	return scenario{Powers: powers, Subject: rapid.IntRange(0, n-1).Draw(t, "subject"), Cache: rapid.SampledFrom([]string{"archive", "dirty"}).Draw(t, "cache"),
-		Heights: uint64(rapid.IntRange(2, 3).Draw(t, "heights")), NilRound: rapid.Bool().Draw(t, "nilround")}
+		Heights: uint64(rapid.IntRange(2, 3).Draw(t, "heights")), NilRound: rapid.Bool().Draw(t, "nilround"), WithTxs: rapid.Bool().Draw(t, "txs")}
 }
 
 // TestCrashDrawn: crash points drawn by rapid over drawn scenarios (quick tier).
@@ -406,8 +449,11 @@ func TestCrashDrawn(t *testing.T) {
 // TestKnownWindows: every crash point of one base run per cache mode (unsynced WAL tail lost). Deterministic; this is
 // where the listed known findings are reproduced on every run, and it doubles as a small exhaustive tier for quick.
 func TestKnownWindows(t *testing.T) {
-	for _, cache := range []string{"archive", "dirty"} {
-		sc := scenario{Powers: []int64{15, 15, 15, 15}, Subject: 0, Cache: cache, Heights: 3}
+	for _, sc := range []scenario{
+		{Powers: []int64{15, 15, 15, 15}, Subject: 0, Cache: "archive", Heights: 3},
+		{Powers: []int64{15, 15, 15, 15}, Subject: 0, Cache: "dirty", Heights: 3},
+		{Powers: []int64{15, 15, 15, 15}, Subject: 1, Cache: "archive", Heights: 2, WithTxs: true},
+	} {
 		n := runCrash(sc, -1, "none").ops
 		if n <= 0 {
 			t.Fatalf("harness: base run has no durable operations")
@@ -430,7 +476,7 @@ func TestCrashEnum(t *testing.T) {
 	for _, cache := range []string{"archive", "dirty"} {
 		for _, nr := range []bool{false, true} {
 			for subj := 0; subj < ev.Scale("SUBJECTS", 2); subj++ {
-				scs = append(scs, scenario{Powers: []int64{15, 15, 15, 15}, Subject: subj * 2, Cache: cache, Heights: 3, NilRound: nr})
+				scs = append(scs, scenario{Powers: []int64{15, 15, 15, 15}, Subject: subj * 2, Cache: cache, Heights: 3, NilRound: nr, WithTxs: subj == 1})
 			}
 		}
 	}
